@@ -111,6 +111,46 @@ def run(ctx):
         for k in api:
             if line.startswith("A " + k):
                 api[k] += 1
+    # (3) very long inputs (parser stack limits): the implementation alone must answer, not crash
+    longs = [b"1 " * 12000, b"(" * 6000 + b")" * 6000, b'"%( ' + b"1 " * 12000 + b' %)"', b"[" * 3000 + b"]" * 3000,
+             b"1 " * 9990 + b"add", b"(1, " * 4000 + b"1" + b")" * 4000, b"?(" * 5200 + b")" * 5200, b"dup " * 50000,
+             b'"' + b"a" * 200000 + b'"', b"1" * 5000, b"/*" + b"*" * 100000 + b"/ 1", b"let A := " * 3000]
+    if not ctx.replay:
+        nlong = 0
+        for q in longs:
+            rc, out, err = common.run_lines(h.exe, ["A " + zwcorr.hx(q)], timeout=3600, args=[str(h.budget), "30"])
+            nlong += 1
+            if rc in (0, 3) and not any("CONTRACT" in l for l in out):
+                continue
+            depth = 0
+            mx = 0
+            for ch in q:
+                if ch in b"([{":
+                    depth += 1
+                    mx = max(mx, depth)
+                elif ch in b")]}":
+                    depth -= 1
+            ctx.violation("the library crashed (rc=%d) or broke the API contract on a long query (%d bytes, nesting depth %d, starts %r): %s"
+                          % (rc, len(q), mx, q[:20], (err or "")[-200:]),
+                          {"stream": "C14-long", "input_hex": q.hex()[:2000], "input_len": len(q), "stderr": (err or "")[-2000:]},
+                          finding_key={"deep-nesting": True} if (rc == -11 and mx >= 1500) else None)
+        ctx.cov["long_inputs"] = nlong
+    # (4) in the CLI, compile failures and run-time failures at pull index k surface on stderr with exit status 2
+    import subprocess
+    im = ctx.impl("plain")
+    cli = [("(", 2), ("let A := 1; let A := 2;", 2), ("0x", 2), ("drop", 2), ("(1, drop)", 2), ("(1, 2, drop)", 2),
+           ("(1, 2, 3, drop drop)", 2), ("(drop, 1)", 2), ("1", 0), ("!()", 1), ("1 0 div", 1), ("(1, 2) (drop drop, )", 2)]
+    cli_ok = 0
+    for q, want in ([] if ctx.replay else cli):
+        for extra in ([], ["-c"], ["-s"]):
+            r = subprocess.run([im.dwgrep] + extra + ["-e", q], stdout=subprocess.PIPE, stderr=subprocess.PIPE, text=True, timeout=60)
+            if r.returncode != want or (want == 2 and not extra.count("-s") and not r.stderr.strip()):
+                ctx.violation("dwgrep %s -e %r: exit status %d (stderr %r), the contract says %d with a message on stderr"
+                              % (" ".join(extra), q, r.returncode, r.stderr[:100], want),
+                              {"stream": "C14-cli", "input": {"argv": extra + ["-e", q]}, "got": r.returncode, "expected": want})
+            else:
+                cli_ok += 1
+    ctx.cov["cli_failure_paths_ok"] = cli_ok
     ctx.cov["evaluations"] = len(lines) + len(alines)
     ctx.cov["distinct_nontrivial"] = len(set(inputs)) - 256
     ctx.cov["accepted"] = accepted
